@@ -130,6 +130,7 @@ def run(ctx):
             for fac in itertools.product([1, 2], repeat=3):
                 cases.append(("average", rng.choice(["uint8", "uint16"]), (1,) + shp, list(fac), rng.choice([None, 0, 255])))
                 cases.append(("majority", "uint32", (1,) + shp, [rng.choice([1, 2, 3]) for _ in range(3)], None))
+    reused = {}
     for method, dt, shape, factors, outside in cases:
         a = gen_array(rng, dt, shape)
         if outside == "max":
@@ -138,9 +139,18 @@ def run(ctx):
         desc = {"method": method, "dtype": dt, "shape": list(shape), "factors_xyz": factors,
                 "outside_value": outside}
         try:
-            ds = downscaling.get_downscaler(method, info=None, options=opts)
+            # one downscaler object serves all chunks of a pyramid (every shape, every level): objects are reused
+            # across cases with the same method and outside value
+            dkey = (method, str(outside))
+            if dkey not in reused:
+                reused[dkey] = downscaling.get_downscaler(method, info=None, options=opts)
+            ds = reused[dkey]
+            a_before = a.copy()
             with np.errstate(all="ignore"):
                 out = ds.downscale(a, tuple(factors))
+            if not np.array_equal(a.view(np.uint8), a_before.view(np.uint8)):
+                ctx.oracle_fail("the downscaler modified the chunk it was given", desc)
+                a = a_before
         except Exception as exc:  # noqa
             ctx.oracle_fail(f"downscale raised {type(exc).__name__}: {exc}", dict(desc, data=a.ravel().tolist()[:60]))
             continue
